@@ -45,10 +45,10 @@ DyOne == DyFromInt(1)
 
 (* constants that are expensive to derive: built once by the trace / model specification and passed as `k` *)
 DiffConsts == [ e |-> ExpConsts,
-                p25_7 |-> FxPow(FxInt(25), 7),                     \* 25^7 = 6103515625
-                c126_40 |-> FxPow(FxRat(126, 100), 40),
-                c141_200 |-> FxPow(FxRat(141, 100), 200),
-                c143_10 |-> FxPow(FxRat(143, 100), 10) ]
+                c126_40 |-> QfPow(<<QRat(126, 100), 0>>, 40),
+                c141_200 |-> QfPow(<<QRat(141, 100), 0>>, 200),
+                c143_10 |-> QfPow(<<QRat(143, 100), 0>>, 10) ]
+QSeq(js) == [i \in DOMAIN js |-> QOfFx(FxOfDy(js[i]))]              \* sequence of dyadics -> Q numbers (module ExpSeries)
 
 -----------------------------------------------------------------------------
 (* laws *)
@@ -69,73 +69,64 @@ RelBits(x, y) ==
   ELSE LET e == MaxI(DyLog2(x), DyLog2(y))
        IN AgreeBits(FxOfDy(DyMulPow2(x, -e)), FxOfDy(DyMulPow2(y, -e)), FxOne)
 
-(* agreement of  out^q  with  c^q x^p  (cq = c^q), out and x non-negative dyadics of any magnitude:
-   both are brought into [1, 2) by exact powers of two, out = o 2^a, x = t 2^b, and
-   o^q 2^(q a - p b) is compared with c^q t^p.  The result is expressed for `out` itself:
-   a relative error e of out is an error q e of out^q, so floor(log2 q) bits are given back. *)
+(* agreement of  out^q  with  c^q x^p  (cq = c^q in the floating form of ExpSeries), out and x non-negative
+   dyadics of any magnitude; powers by repeated squaring on mantissa and exponent.  The result is expressed for
+   `out` itself: a relative error e of out is an error q e of out^q, so floor(log2 q) bits are given back. *)
 Log2Floor(n) == BitLen(FromNat(n)) - 1
 PowRelBits(cq, out, x, p, q) ==
   IF DyIsZero(out) /\ DyIsZero(x) THEN 200
   ELSE IF DyIsZero(out) \/ DyIsZero(x) \/ out[1] < 0 \/ x[1] < 0 THEN 0
-  ELSE LET a == DyLog2(out)  b == DyLog2(x)
-           o == FxOfDy(DyMulPow2(out, -a))
-           t == FxOfDy(DyMulPow2(x, -b))
-           lhs == FxPow(o, q)
-           rhs == FxMul(cq, FxPow(t, p))
-           s == q * a - p * b
-       IN IF s > 400 \/ s < -400 THEN 0
-          ELSE LET L == IF s > 0 THEN FxShl(lhs, s) ELSE lhs
-                   R == IF s < 0 THEN FxShl(rhs, -s) ELSE rhs
-               IN MinI(200, AgreeBits(L, R, FxMax(L, R)) + Log2Floor(q))
+  ELSE MinI(200, QfAgreeBits(QfPow(QfOfDy(out), q), QfMul(cq, QfPow(QfOfDy(x), p))) + Log2Floor(q))
 
 (* closed forms on rectangular coordinates; c1, c2 sequences of Dy, out a Dy *)
 DistSqBits(out, c1, c2) == RelBits(out, SumSq(c1, c2))
-RootBits(out, c1, c2) == PowRelBits(FxOne, out, SumSq(c1, c2), 1, 2)
+RootBits(out, c1, c2) == PowRelBits(QfOne, out, SumSq(c1, c2), 1, 2)
 ImprovedLabBits(k, out, c1, c2) == PowRelBits(k.c126_40, out, SumSq(c1, c2), 11, 40)
 ImprovedCam16Bits(k, out, c1, c2) == PowRelBits(k.c141_200, out, SumSq(c1, c2), 63, 200)
 Improved00Bits(k, out, plain) == PowRelBits(k.c143_10, out, plain, 7, 10)
 
 (* HyAB: out = |dL| + sqrt(da^2 + db^2), lightness first *)
 HyabBits(out, c1, c2) ==
-  LET dl == FxAbs(FxOfDy(DySub(c1[1], c2[1])))
-      e == FxSqrt(FxOfDy(DyAdd(DyMul(DySub(c1[2], c2[2]), DySub(c1[2], c2[2])), DyMul(DySub(c1[3], c2[3]), DySub(c1[3], c2[3])))))
-      ref == FxAdd(dl, e)
-      o == FxOfDy(out)
-  IN AgreeBits(o, ref, AtLeast(FxMax(o, ref), 60))
+  LET d == QSeq(<<DySub(c1[1], c2[1]), DySub(c1[2], c2[2]), DySub(c1[3], c2[3])>>)
+      ref == QAdd(QAbs(d[1]), QSqrt(QAdd(QSqr(d[2]), QSqr(d[3]))))
+      o == QOfFx(FxOfDy(out))
+  IN QAgreeBits(o, ref, QAtLeast(QMax(o, ref), 60))
 
 -----------------------------------------------------------------------------
-(* polar -> rectangular: (L, C, h) -> (L, C cos h, C sin h), C >= 0, h in degrees (any turn) *)
-PolarToRect(k, c) == <<c[1], FxMul(c[2], CosDegK(k.e, c[3])), FxMul(c[2], SinDegK(k.e, c[3]))>>
-(* a recorded conversion agrees with it, relative to the radius *)
+(* polar -> rectangular: (L, C, h) -> (L, C cos h, C sin h), C >= 0, h in degrees (any turn); Q numbers *)
+PolarToRect(k, c) == <<c[1], QMul(c[2], QCosDeg(k.e, c[3])), QMul(c[2], QSinDeg(k.e, c[3]))>>
+(* a recorded conversion agrees with it, relative to the larger of lightness and radius *)
 ConvBits(k, pol, rect) ==
   LET r == PolarToRect(k, pol)
-      s == AtLeast(FxMax(FxAbs(pol[2]), FxAbs(pol[1])), 20)
-  IN MinI(AgreeBits(rect[1], r[1], s), MinI(AgreeBits(rect[2], r[2], s), AgreeBits(rect[3], r[3], s)))
+      s == QAtLeast(QMax(QAbs(pol[2]), QAbs(pol[1])), 20)
+  IN MinI(QAgreeBits(rect[1], r[1], s), MinI(QAgreeBits(rect[2], r[2], s), QAgreeBits(rect[3], r[3], s)))
 
 -----------------------------------------------------------------------------
 (* CIEDE2000, Sharma, Wu, Dalal (2005), section 2, equations numbered as in the paper.
-   Inputs c = <<L*, a*, b*>> in fixed point.
+   Inputs c = <<L*, a*, b*>> as Q numbers (module ExpSeries: 104 fractional bits, fast).
 
    Step 1 - C'_i, h'_i:
      (2) C*_i = sqrt(a_i^2 + b_i^2)            (3) Cbar = (C*_1 + C*_2) / 2
      (4) G = 0.5 (1 - sqrt(Cbar^7 / (Cbar^7 + 25^7)))
      (5) a'_i = (1 + G) a_i                    (6) C'_i = sqrt(a'_i^2 + b_i^2)
-     (7) h'_i = 0 if b_i = a'_i = 0, else atan2(b_i, a'_i) in degrees, in [0, 360)        *)
+     (7) h'_i = 0 if b_i = a'_i = 0, else atan2(b_i, a'_i) in degrees, in [0, 360)
+   The quotient x^7 / (x^7 + 25^7) is evaluated as u^7 / (u^7 + 1) with u = x / 25 (the same number; keeps
+   the seventh powers inside the range of the arithmetic).                                           *)
+Ratio7(x) == LET u7 == QPow(QDivInt(x, 25), 7) IN QDiv(u7, QAdd(u7, QOne))
 De00Primes(k, c1, c2) ==
-  LET C1 == FxSqrt(FxAdd(FxSqr(c1[2]), FxSqr(c1[3])))
-      C2 == FxSqrt(FxAdd(FxSqr(c2[2]), FxSqr(c2[3])))
-      Cb7 == FxPow(FxHalf(FxAdd(C1, C2)), 7)
-      G == FxHalf(FxSub(FxOne, FxSqrt(FxDiv(Cb7, FxAdd(Cb7, k.p25_7)))))
-      a1p == FxMul(FxAdd(FxOne, G), c1[2])
-      a2p == FxMul(FxAdd(FxOne, G), c2[2])
-      z1 == FxIsZero(c1[2]) /\ FxIsZero(c1[3])
-      z2 == FxIsZero(c2[2]) /\ FxIsZero(c2[3])
+  LET C1 == QSqrt(QAdd(QSqr(c1[2]), QSqr(c1[3])))
+      C2 == QSqrt(QAdd(QSqr(c2[2]), QSqr(c2[3])))
+      G == QHalf(QSub(QOne, QSqrt(Ratio7(QHalf(QAdd(C1, C2))))))
+      a1p == QMul(QAdd(QOne, G), c1[2])
+      a2p == QMul(QAdd(QOne, G), c2[2])
+      z1 == QIsZero(c1[2]) /\ QIsZero(c1[3])
+      z2 == QIsZero(c2[2]) /\ QIsZero(c2[3])
   IN [ C1 |-> C1, C2 |-> C2, a1p |-> a1p, a2p |-> a2p,
-       C1p |-> FxSqrt(FxAdd(FxSqr(a1p), FxSqr(c1[3]))),
-       C2p |-> FxSqrt(FxAdd(FxSqr(a2p), FxSqr(c2[3]))),
+       C1p |-> QSqrt(QAdd(QSqr(a1p), QSqr(c1[3]))),
+       C2p |-> QSqrt(QAdd(QSqr(a2p), QSqr(c2[3]))),
        z1 |-> z1, z2 |-> z2,
-       h1p |-> IF z1 THEN FxZero ELSE Atan2Deg(k.e, c1[3], a1p),
-       h2p |-> IF z2 THEN FxZero ELSE Atan2Deg(k.e, c2[3], a2p) ]
+       h1p |-> IF z1 THEN QZero ELSE QAtan2Deg(k.e, c1[3], a1p),
+       h2p |-> IF z2 THEN QZero ELSE QAtan2Deg(k.e, c2[3], a2p) ]
 
 (* Steps 2 and 3.
      (8) dL' = L2 - L1        (9) dC' = C'_2 - C'_1
@@ -164,81 +155,79 @@ De00Primes(k, c1, c2) ==
    The regular formula is flip = FALSE, wrap = 0.                                                       *)
 De00Tail(k, c1, c2, P, flip, wrap) ==
   LET zero == P.z1 \/ P.z2
-      dL == FxSub(c2[1], c1[1])
-      dC == FxSub(P.C2p, P.C1p)
-      hd == FxSub(P.h2p, P.h1p)
-      wide0 == FxLt(Fx180, FxAbs(hd))
+      dL == QSub(c2[1], c1[1])
+      dC == QSub(P.C2p, P.C1p)
+      hd == QSub(P.h2p, P.h1p)
+      wide0 == QLt(Q180, QAbs(hd))
       wide == IF flip THEN ~wide0 ELSE wide0
-      dh == IF zero THEN FxZero
+      dh == IF zero THEN QZero
             ELSE IF ~wide THEN hd
-            ELSE IF FxLt(FxZero, hd) THEN FxSub(hd, Fx360T)          \* h'_2 - h'_1 > 180
-            ELSE FxAdd(hd, Fx360T)                                    \* h'_2 - h'_1 < -180
-      dH == FxMul(FxMulInt(FxSqrt(FxMul(P.C1p, P.C2p)), 2), SinDegK(k.e, FxHalf(dh)))
-      Lb == FxHalf(FxAdd(c1[1], c2[1]))
-      Cbp == FxHalf(FxAdd(P.C1p, P.C2p))
-      hsum == FxAdd(P.h1p, P.h2p)
+            ELSE IF QLt(QZero, hd) THEN QSub(hd, Q360)            \* h'_2 - h'_1 > 180
+            ELSE QAdd(hd, Q360)                                    \* h'_2 - h'_1 < -180
+      dH == QMul(QMulInt(QSqrt(QMul(P.C1p, P.C2p)), 2), QSinDeg(k.e, QHalf(dh)))
+      Lb == QHalf(QAdd(c1[1], c2[1]))
+      Cbp == QHalf(QAdd(P.C1p, P.C2p))
+      hsum == QAdd(P.h1p, P.h2p)
       hbar0 == IF zero THEN hsum
-               ELSE IF ~wide THEN FxHalf(hsum)
-               ELSE IF FxLt(hsum, Fx360T) THEN FxHalf(FxAdd(hsum, Fx360T))
-               ELSE FxHalf(FxSub(hsum, Fx360T))
-      hbar == FxAdd(hbar0, FxInt(360 * wrap))
-      T == FxSub(FxAdd(FxAdd(FxSub(FxOne,
-                                   FxMul(FxRat(17, 100), CosDegK(k.e, FxSub(hbar, FxInt(30))))),
-                             FxMul(FxRat(24, 100), CosDegK(k.e, FxMulInt(hbar, 2)))),
-                       FxMul(FxRat(32, 100), CosDegK(k.e, FxAdd(FxMulInt(hbar, 3), FxInt(6))))),
-                 FxMul(FxRat(20, 100), CosDegK(k.e, FxSub(FxMulInt(hbar, 4), FxInt(63)))))
-      dtheta == FxMulInt(FxExpNeg(FxSqr(FxDivInt(FxSub(hbar, FxInt(275)), 25))), 30)
-      Cbp7 == FxPow(Cbp, 7)
-      RC == FxMulInt(FxSqrt(FxDiv(Cbp7, FxAdd(Cbp7, k.p25_7))), 2)
-      x2 == FxSqr(FxSub(Lb, FxInt(50)))
-      SL == FxAdd(FxOne, FxDiv(FxMul(FxRat(15, 1000), x2), FxSqrt(FxAdd(FxInt(20), x2))))
-      SC == FxAdd(FxOne, FxMul(FxRat(45, 1000), Cbp))
-      SH == FxAdd(FxOne, FxMul(FxMul(FxRat(15, 1000), Cbp), T))
-      RT == FxNeg(FxMul(SinDegK(k.e, FxMulInt(dtheta, 2)), RC))
-      tl == FxDiv(dL, SL)
-      tc == FxDiv(dC, SC)
-      th == FxDiv(dH, SH)
-      sq == FxAdd(FxAdd(FxSqr(tl), FxSqr(tc)), FxAdd(FxSqr(th), FxMul(RT, FxMul(tc, th))))
-  IN [ de |-> FxSqrt(sq),                         \* sq is a positive definite form (|R_T| < 2): never negative
-       hdabs |-> FxAbs(hd), hbar |-> hbar0, zero |-> zero, wide |-> wide0,
-       le |-> FxLe(P.h2p, P.h1p), lt360 |-> FxLt(hsum, Fx360T) ]
+               ELSE IF ~wide THEN QHalf(hsum)
+               ELSE IF QLt(hsum, Q360) THEN QHalf(QAdd(hsum, Q360))
+               ELSE QHalf(QSub(hsum, Q360))
+      hbar == QAdd(hbar0, QInt(360 * wrap))
+      T == QSub(QAdd(QAdd(QSub(QOne,
+                               QMul(QRat(17, 100), QCosDeg(k.e, QSub(hbar, QInt(30))))),
+                          QMul(QRat(24, 100), QCosDeg(k.e, QMulInt(hbar, 2)))),
+                     QMul(QRat(32, 100), QCosDeg(k.e, QAdd(QMulInt(hbar, 3), QInt(6))))),
+                QMul(QRat(20, 100), QCosDeg(k.e, QSub(QMulInt(hbar, 4), QInt(63)))))
+      dtheta == QMulInt(QExpNeg(QSqr(QDivInt(QSub(hbar, QInt(275)), 25))), 30)
+      RC == QMulInt(QSqrt(Ratio7(Cbp)), 2)
+      x2 == QSqr(QSub(Lb, QInt(50)))
+      SL == QAdd(QOne, QDiv(QMul(QRat(15, 1000), x2), QSqrt(QAdd(QInt(20), x2))))
+      SC == QAdd(QOne, QMul(QRat(45, 1000), Cbp))
+      SH == QAdd(QOne, QMul(QMul(QRat(15, 1000), Cbp), T))
+      RT == QNeg(QMul(QSinDeg(k.e, QMulInt(dtheta, 2)), RC))
+      tl == QDiv(dL, SL)
+      tc == QDiv(dC, SC)
+      th == QDiv(dH, SH)
+      sq == QAdd(QAdd(QSqr(tl), QSqr(tc)), QAdd(QSqr(th), QMul(RT, QMul(tc, th))))
+  IN [ de |-> QSqrt(sq),                          \* sq is a positive definite form (|R_T| < 2): never negative
+       hdabs |-> QAbs(hd), hbar |-> hbar0, zero |-> zero, wide |-> wide0,
+       le |-> QLe(P.h2p, P.h1p), lt360 |-> QLt(hsum, Q360) ]
 
-(* the regular formula, as a function *)
+(* the regular formula, as a function (Q triples in, Q number out) *)
 De00Full(k, c1, c2) == De00Tail(k, c1, c2, De00Primes(k, c1, c2), FALSE, 0)
 De00(k, c1, c2) == De00Full(k, c1, c2).de
 
-(* Agreement of recorded results (a sequence of fixed-point values: the result, the result for the swapped
-   pair, ...) with the reference, relative to the magnitude of the coordinates (the formula subtracts chromas
-   and hues of that magnitude, so that is what rounding errors scale with).  `band` (degrees) is the width
+(* Agreement of recorded results (a sequence of Q numbers: the result, the result for the swapped pair, ...)
+   with the reference, relative to the magnitude of the coordinates (the formula subtracts chromas and hues of
+   that magnitude, so that is what rounding errors scale with).  `band` (degrees, a Q number) is the width
    around the two jumps inside which the other side is accepted as well. *)
-CoordScale(c1, c2) == AtLeast(FxMax(FxMax(FxAbs(c1[1]), FxAbs(c2[1])),
-                                    FxMax(FxMax(FxAbs(c1[2]), FxAbs(c1[3])), FxMax(FxAbs(c2[2]), FxAbs(c2[3])))), 10)
+CoordScale(c1, c2) == QAtLeast(QMax(QMax(QAbs(c1[1]), QAbs(c2[1])),
+                                    QMax(QMax(QAbs(c1[2]), QAbs(c1[3])), QMax(QAbs(c2[2]), QAbs(c2[3])))), 10)
 RECURSIVE WorstBits(_, _, _, _)
-WorstBits(outs, ref, s, i) == IF i > Len(outs) THEN 200 ELSE MinI(AgreeBits(outs[i], ref, s), WorstBits(outs, ref, s, i + 1))
-NearWrap(r, band) == ~r.zero /\ (FxLe(r.hbar, band) \/ FxLe(FxSub(Fx360T, band), r.hbar))
-NearWrapZ(r, band) == FxLe(r.hbar, band) \/ FxLe(FxSub(Fx360T, band), r.hbar)
-De00SideBits(k, c1, c2, P, flip, outs, s, band) ==
-  LET r == De00Tail(k, c1, c2, P, flip, 0)
-      b0 == WorstBits(outs, r.de, s, 1)
-  IN IF NearWrapZ(r, band)
-     THEN MaxI(b0, WorstBits(outs, De00Tail(k, c1, c2, P, flip, IF FxLe(r.hbar, band) THEN 1 ELSE -1).de, s, 1))
+WorstBits(outs, ref, s, i) == IF i > Len(outs) THEN 200 ELSE MinI(QAgreeBits(outs[i], ref, s), WorstBits(outs, ref, s, i + 1))
+NearWrap(r, band) == QLe(r.hbar, band) \/ QLe(QSub(Q360, band), r.hbar)
+(* r: the evaluation of one side of the 180 degree split; the other side of the mean-hue wrap is tried near it *)
+De00SideBits(k, c1, c2, P, flip, r, outs, s, band) ==
+  LET b0 == WorstBits(outs, r.de, s, 1)
+  IN IF NearWrap(r, band)
+     THEN MaxI(b0, WorstBits(outs, De00Tail(k, c1, c2, P, flip, IF QLe(r.hbar, band) THEN 1 ELSE -1).de, s, 1))
      ELSE b0
 De00Bits(k, c1, c2, outs, band) ==
   LET P == De00Primes(k, c1, c2)
       s == CoordScale(c1, c2)
       r == De00Tail(k, c1, c2, P, FALSE, 0)
-      near180 == ~r.zero /\ FxLe(FxAbs(FxSub(r.hdabs, Fx180)), band)
-      reg == De00SideBits(k, c1, c2, P, FALSE, outs, s, band)
-  IN IF near180 THEN MaxI(reg, De00SideBits(k, c1, c2, P, TRUE, outs, s, band)) ELSE reg
+      near180 == ~r.zero /\ QLe(QAbs(QSub(r.hdabs, Q180)), band)
+      reg == De00SideBits(k, c1, c2, P, FALSE, r, outs, s, band)
+  IN IF near180 THEN MaxI(reg, De00SideBits(k, c1, c2, P, TRUE, De00Tail(k, c1, c2, P, TRUE, 0), outs, s, band)) ELSE reg
 
 -----------------------------------------------------------------------------
 (* WCAG 2.1: contrast ratio = (L_max + 0.05) / (L_min + 0.05) on the relative luminances;
    judged as  ratio (L_min + 0.05) = L_max + 0.05 *)
-ContrastBits(ratio, l1, l2) ==
-  LET mn == FxMin(l1, l2)  mx == FxMax(l1, l2)
-      lhs == FxMul(ratio, FxAdd(mn, FxRat(5, 100)))
-      rhs == FxAdd(mx, FxRat(5, 100))
-  IN AgreeBits(lhs, rhs, AtLeast(FxMax(FxAbs(lhs), FxAbs(rhs)), 10))
+ContrastBits(ratio, l1, l2) ==                                \* Q numbers
+  LET mn == QMin(l1, l2)  mx == QMax(l1, l2)
+      lhs == QMul(ratio, QAdd(mn, QRat(5, 100)))
+      rhs == QAdd(mx, QRat(5, 100))
+  IN QAgreeBits(lhs, rhs, QAtLeast(QMax(QAbs(lhs), QAbs(rhs)), 10))
 (* success criteria, in the order has_min_contrast_text (SC 1.4.3, 4.5:1), has_min_contrast_large_text (SC 1.4.3, 3:1),
    has_enhanced_contrast_text (SC 1.4.6, 7:1), has_enhanced_contrast_large_text (SC 1.4.6, 4.5:1),
    has_min_contrast_graphics (SC 1.4.11, 3:1): twice the constant, to stay in the integers *)
